@@ -23,6 +23,6 @@ def run(tier, seed):
         "reset_rules is executed symbolically with @contextmanager semantics: on both continuations of the yield (resume, throw) the postcondition "
         "'enableOnly(snapshot) applied to all four rulers, caches invalidated' is discharged. Ruler mutators keep RI on their KeyError exits. The frame "
         "obligations hold at every program point, so an exception from a callback leaves rules/options/renderer table untouched.")
-    rep.trusted_base = ["pyvc, z3; vf/frame.py", "@contextmanager runs the generator to its yield and resumes or throws there"]
-    rep.assumptions = ["the with-body uses only the public Ruler API (never removes or renames a rule)", "get_active_rules (comprehensions) returns the names of the enabled rules: assumed contract, monitored in the C11 history check"]
+    rep.trusted_base += ["pyvc, z3; vf/frame.py", "@contextmanager runs the generator to its yield and resumes or throws there"]
+    rep.assumptions += ["the with-body uses only the public Ruler API (never removes or renames a rule)", "get_active_rules (comprehensions) returns the names of the enabled rules: assumed contract, monitored in the C11 history check"]
     return rep
